@@ -57,7 +57,11 @@ def run(ck, tier, seed):
                     cls = "branch-elimination-flattens-scope"
                 else:
                     cls = "unexplained/%s" % ("/".join(p["tags"][:3]) if p["tags"][0] != "random" else "random")
+                # table programs are identified individually (a new failing shape of a known class is a new finding);
+                # random programs by class
                 sig = "%s/%s" % (level, cls)
+                if p["tags"][0] != "random" and not cls.startswith("unexplained"):
+                    sig += "/" + "/".join(p["tags"][:3]) + ("" if not p["vars"] else "/in=" + ",".join(langrun.show(v["v"]) for v in p["vars"]))
                 if sig.endswith(tuple(["unexplained/random"])) and sig in seen:
                     continue
                 seen.add(sig)
